@@ -155,7 +155,7 @@ int disasm_65816(
         snprintf(temp, sizeof(temp), " [%s],y", num);
         break;
       case OP_BLOCK_MOVE:
-        snprintf(temp, sizeof(temp), " %0x02x,%0x02x", lo, hi);
+        snprintf(temp, sizeof(temp), " 0x%02x,0x%02x", lo, hi);
         break;
       case OP_RELATIVE:
       case OP_RELATIVE_LONG:
